@@ -90,13 +90,21 @@ def run_pelt(
 
     # Evolving set of admissible segment starts.
     cost_eval_starts = np.array(([0]), dtype=np.int64)
+    # Observation index from which each admissible start can be dropped.
+    drop_from = np.array([num_obs], dtype=np.int64)
 
     observation_indices = np.arange(2 * min_segment_length - 1, num_obs).reshape(-1, 1)
     for current_obs_ind in observation_indices:
         latest_start = current_obs_ind - min_segment_shift
 
+        # Drop the starts whose pruning has become valid:
+        keep = drop_from > current_obs_ind[0]
+        cost_eval_starts = cost_eval_starts[keep]
+        drop_from = drop_from[keep]
+
         # Add the next start to the admissible starts set:
         cost_eval_starts = np.concatenate((cost_eval_starts, latest_start))
+        drop_from = np.concatenate((drop_from, np.array([num_obs])))
         cost_eval_ends = np.repeat(current_obs_ind + 1, len(cost_eval_starts))
         cost_eval_intervals = np.column_stack((cost_eval_starts, cost_eval_ends))
         costs = cost.evaluate(cost_eval_intervals)
@@ -109,9 +117,16 @@ def run_pelt(
         prev_cpts[current_obs_ind] = cost_eval_starts[argmin_candidate_cost]
 
         # Trimming the admissible starts set: (reuse the array of optimal costs)
-        cost_eval_starts = cost_eval_starts[
+        # A start failing the pruning test is only dominated for segment ends at
+        # least min_segment_length later, so it is dropped with that delay.
+        prunable = ~(
             candidate_opt_costs + split_cost <= opt_cost[current_obs_ind + 1] + penalty
-        ]
+        )
+        drop_from = np.where(
+            prunable,
+            np.minimum(drop_from, current_obs_ind[0] + min_segment_length),
+            drop_from,
+        )
 
     return opt_cost[1:], get_changepoints(prev_cpts)
 
